@@ -47,4 +47,7 @@ def witnessRes : Res :=
     rse := some [(.theta, .num (1/10)), (.omega, .num (1/10)), (.sigma, .num (1/10))],
     grd := [(.theta, .num 1), (.omega, .nan), (.sigma, .num 1)], near := [] }
 
+/-- Documented meaning of `final_zero_gradient_<class>`: some gradient of the class is zero or NaN. -/
+def fzgDoc (r : Res) (k : PClass) : Bool := (ofClass k r.grd).any (fun g => isZero g || g.isNan)
+
 end Pharmpy.C19
